@@ -315,3 +315,45 @@ pub fn kill_after(pid: u32, secs: u64) -> (std::sync::Arc<std::sync::atomic::Ato
     });
     (done, fired)
 }
+
+
+/// The order of an aggregation that ends the query (or is directly followed by `limit`) is the
+/// documented implicit sort: by the aggregate columns, descending — or, when `_timeslice` is a key,
+/// by `_timeslice` and then the aggregate columns, ascending.  `pre | agg | tail` must therefore
+/// give exactly what `pre | agg | sort by <those columns> <dir> | tail` gives (the explicit sort is
+/// judged on its own by C09's reference sort).  Returns Some(description) on a difference.
+pub fn implicit_sort_equiv(pre: &str, agg: &str, agg_cols: &[&str], has_timeslice: bool, tail: &str, input: &[u8]) -> Option<(String, String, String, String)> {
+    let mut cols: Vec<String> = vec![];
+    if has_timeslice {
+        cols.push("_timeslice".into());
+    }
+    cols.extend(agg_cols.iter().map(|c| c.to_string()));
+    let dir = if has_timeslice { "asc" } else { "desc" };
+    let q1 = format!("{} | {}{}", pre, agg, tail);
+    let q2 = format!("{} | {} | sort by {} {}{}", pre, agg, cols.join(", "), dir, tail);
+    let r1 = crate::imp::run(&q1, input, "json", 10);
+    let r2 = crate::imp::run(&q2, input, "json", 10);
+    if !r1.compiled || !r2.compiled || r1.panicked.is_some() || r2.panicked.is_some() {
+        return None;
+    }
+    let norm = |b: &[u8]| -> Option<Vec<crate::canon::J>> {
+        match crate::canon::parse(String::from_utf8_lossy(b).trim_end()) {
+            Ok(crate::canon::J::Arr(rows)) => Some(rows.iter().map(crate::canon::normalize).collect()),
+            _ => None,
+        }
+    };
+    match (norm(&r1.stdout), norm(&r2.stdout)) {
+        (Some(a), Some(b)) if a == b => None,
+        _ => Some((q1, q2, String::from_utf8_lossy(&r1.stdout).to_string(), String::from_utf8_lossy(&r2.stdout).to_string())),
+    }
+}
+
+/// JSON documents with a key `k`, numbers `n`, `m` and a timestamp `ts` spread over a few 5-minute slices
+pub fn agg_docs(r: &mut crate::rng::Rng, rows: usize) -> Vec<u8> {
+    let mut out = vec![];
+    for _ in 0..rows {
+        let ts = format!("2021-03-04T10:{:02}:{:02}Z", r.below(20), r.below(60));
+        out.extend(format!("{{\"k\":\"{}\",\"n\":{},\"m\":{},\"ts\":\"{}\"}}\n", r.pick(&["alpha", "beta", "gamma", "delta"]), r.range(0, 6), r.range(-3, 3), ts).into_bytes());
+    }
+    out
+}
